@@ -8,6 +8,7 @@ import re._parser as _sp
 from ..absint import new_interp, Interp, HList, HDict, HInst, HGen, NONE, const, is_const, fmt, mk_not
 from ..astutil import unparse, dotted, walk_no_nested_defs
 from ..berp import grammar
+from ..names import N
 from ..common import AnalysisError, Report
 from ..excflow import ExcFlow
 from ..facts import facts
@@ -119,7 +120,7 @@ def _all_nfs():
     b = br.bnf()
     out.append(("AstBuilder.transform_node", b.I, b.tree, b.fi))
     for q in ("gherkin.gherkin_line.GherkinLine.tags", "gherkin.gherkin_line.GherkinLine.table_cells", "gherkin.ast_builder.AstBuilder.build",
-              "gherkin.ast_builder.AstBuilder.get_result", "gherkin.token_matcher.TokenMatcher._change_dialect",
+              "gherkin.ast_builder.AstBuilder.get_result", f"gherkin.token_matcher.TokenMatcher.{N.CHANGE_DIALECT}",
               "gherkin.errors.UnexpectedTokenException.__init__", "gherkin.errors.UnexpectedEOFException.__init__", "gherkin.errors.CompositeParserException.__init__",
               "gherkin.token_formatter_builder.TokenFormatterBuilder.get_result", "gherkin.stream.gherkin_events.create_errors"):
         I = new_interp()
